@@ -52,6 +52,18 @@ Theorem C19_history : C19_history_statement.
 Proof. exact history_independent. Qed.
 Print Assumptions C19_history.
 
+(* "whichever other requests were served before": the same request in two histories — another order, other company,
+   another starting world — gets the same answer *)
+Definition C19_any_order_statement : Prop :=
+  forall O cfg hs hs' w w' i j en req h,
+    nth_error hs i = Some (en, req, h) -> nth_error hs' j = Some (en, req, h) ->
+    exists wi ri wj rj, nth_error (fst (serve_all O cfg hs w)) i = Some (wi, ri) /\
+                        nth_error (fst (serve_all O cfg hs' w')) j = Some (wj, rj) /\
+                        answer_in wi ri = answer_in wj rj.
+Theorem C19_any_order : C19_any_order_statement.
+Proof. exact same_answer_in_any_history. Qed.
+Print Assumptions C19_any_order.
+
 (* the law behind it: serving commutes with shifting the world it starts from *)
 Definition C19_frame_statement : Prop :=
   forall O w cfg en req s, serve O cfg en req (PurityProofs.shift w s) = shift_res w (serve O cfg en req s).
